@@ -54,6 +54,8 @@ fn programs(entry: Entry) -> Vec<(&'static str, Vec<Op>)> {
     let call = |slot| Op::Call { slot, script: vec![], cancel: None };
     let send = |slot| Op::Send { slot, script: vec![], cancel: None };
     let mut v: Vec<(&'static str, Vec<Op>)> = vec![];
+    // the spawned actor runs on the runtime's own workers: it starts although the client blocks its thread
+    v.push(("starts_while_client_blocks", vec![Op::AwaitLogSync { tag: 1, what: 3, count: 1 }, Op::Ping { slot: 0, cancel: None }, Op::Stop { slot: 0 }, Op::Await { slot: 0, by_ref: false }]));
     // alive after the spawn call returned and the client yielded
     v.push(("alive_then_stop_await", vec![Op::Sleep(20), Op::Ping { slot: 0, cancel: None }, send(0), send(0), call(0), Op::Stop { slot: 0 }, Op::Await { slot: 0, by_ref: false }, Op::AwaitLog { tag: 1, what: 0, count: 1 }]));
     v.push(("halt", vec![Op::Yield, call(0), Op::Halt { slot: 0 }, Op::AwaitLog { tag: 1, what: 0, count: 1 }]));
@@ -76,6 +78,9 @@ fn programs(entry: Entry) -> Vec<(&'static str, Vec<Op>)> {
         v.push(("join_dropped_then_call", vec![call(1), Op::Join { slot: 1, cancel: Some(1) }, Op::Sleep(20), Op::Ping { slot: 0, cancel: None }, call(0), Op::Stop { slot: 0 }, Op::Await { slot: 0, by_ref: false }]));
         // a pending (parked) join future, then a second join: the second one resolves at once with None
         v.push(("join_parked_then_second_join", vec![call(1), Op::JoinPark { slot: 1, polls: 1 }, Op::Join { slot: 1, cancel: None }, Op::Ping { slot: 0, cancel: None }, Op::Stop { slot: 0 }, Op::Join { slot: 2, cancel: None }]));
+        // a join future that is created but never polled takes nothing: dropped or kept, a later join gets the actor
+        v.push(("join_unpolled_dropped_then_join", vec![call(1), Op::JoinPark { slot: 1, polls: 0 }, Op::Drop { slot: 2 }, Op::Stop { slot: 0 }, Op::Join { slot: 1, cancel: None }]));
+        v.push(("join_unpolled_kept_then_join", vec![call(1), Op::JoinPark { slot: 1, polls: 0 }, Op::Stop { slot: 0 }, Op::Join { slot: 1, cancel: None }, Op::Join { slot: 2, cancel: None }]));
         // a pending join future, then detach: returns, actor keeps running
         v.push(("join_parked_then_detach", vec![call(1), Op::JoinPark { slot: 1, polls: 1 }, Op::Detach { slot: 1 }, Op::Ping { slot: 3, cancel: None }, Op::Stop { slot: 3 }, Op::Await { slot: 3, by_ref: false }]));
     } else {
